@@ -17,12 +17,27 @@ def translate_shipped():
     return rc == 0, out[-3000:]
 
 
+TRANSLATION_FAILURES = []
+
+
 def spec():
+    """the grammar for the document generators: recovered from the shipped generated code; when that translation reports code
+    that is not an instance of the template (TRANSLATION_FAILURES), the grammar the in-tree DSL parser reads is used instead,
+    so that the checks can still search for an input on which the odd code misbehaves"""
     global _spec
     if _spec is None:
         if not os.path.exists(SPEC_JSON):
             translate_shipped()
-        _spec = docgen.load_spec(SPEC_JSON)
+        try:
+            _spec = docgen.load_spec(SPEC_JSON)
+        except ValueError:
+            import json
+            raw = json.load(open(SPEC_JSON))
+            TRANSLATION_FAILURES[:] = raw.get('failures', [])
+            dsl = os.path.join(GEN, 'spec_dsl.json')
+            if not os.path.exists(dsl):
+                raise
+            _spec = docgen.load_spec(dsl)
     return _spec
 
 
